@@ -1,20 +1,138 @@
 (* C22 — property theorems only. Statements are pinned by vp/check.py.
-   For every modelled protocol P:
+   For every modelled protocol P (one model for both stacks, see Model.v):
      P_msg_wellformed : a message in the representable domain ([P_wf]) encodes to exactly
-                        ONE well-formed CBOR item (declared lengths = contents);
+                        ONE well-formed CBOR item (declared container lengths = contents);
      P_msg_dec_enc    : decoding the encoding (followed by any bytes [r]) returns the
                         message and leaves exactly [r]. *)
-From PV Require Import Lib.Base Cbor.Item Cbor.Enc Cbor.Dec Cbor.Api C22.Model C22.Proofs.
+From PV Require Import Lib.Base Cbor.Item Cbor.Enc Cbor.Dec Cbor.Api C22.Model C22.Proofs C22.Proofs2.
 Open Scope Z_scope.
 
-Theorem ka_msg_wellformed : forall m, ka_wf m = true ->
-  exists i, ka_enc m = encode_item i /\ wf_item i = true.
+(* keepalive *)
+Theorem ka_msg_wellformed : forall m, ka_wf m = true -> exists i, ka_enc m = encode_item i /\ wf_item i = true.
 Proof. exact ka_wellformed. Qed.
 Theorem ka_msg_dec_enc : forall m r, ka_wf m = true -> ka_dec (ka_enc m ++ r) = DOk (m, r).
 Proof. exact ka_dec_enc. Qed.
 
-Theorem bf_msg_wellformed : forall m, bf_wf m = true ->
-  exists i, bf_enc m = encode_item i /\ wf_item i = true.
+(* blockfetch *)
+Theorem bf_msg_wellformed : forall m, bf_wf m = true -> exists i, bf_enc m = encode_item i /\ wf_item i = true.
 Proof. exact bf_wellformed. Qed.
 Theorem bf_msg_dec_enc : forall m r, bf_wf m = true -> bf_dec (bf_enc m ++ r) = DOk (m, r).
 Proof. exact bf_dec_enc. Qed.
+
+(* chainsync, HeaderContent (node-to-node) *)
+Theorem csh_msg_wellformed : forall m, csh_wf m = true -> exists i, csh_enc m = encode_item i /\ wf_item i = true.
+Proof. exact csh_wellformed. Qed.
+Theorem csh_msg_dec_enc : forall m r, csh_wf m = true -> csh_dec (csh_enc m ++ r) = DOk (m, r).
+Proof. exact csh_dec_enc. Qed.
+
+(* chainsync, BlockContent (node-to-client) *)
+Theorem csb_msg_wellformed : forall m, csb_wf m = true -> exists i, csb_enc m = encode_item i /\ wf_item i = true.
+Proof. exact csb_wellformed. Qed.
+Theorem csb_msg_dec_enc : forall m r, csb_wf m = true -> csb_dec (csb_enc m ++ r) = DOk (m, r).
+Proof. exact csb_dec_enc. Qed.
+
+(* chainsync, SkippedContent *)
+Theorem css_msg_wellformed : forall m, css_wf m = true -> exists i, css_enc m = encode_item i /\ wf_item i = true.
+Proof. exact css_wellformed. Qed.
+Theorem css_msg_dec_enc : forall m r, css_wf m = true -> css_dec (css_enc m ++ r) = DOk (m, r).
+Proof. exact css_dec_enc. Qed.
+
+(* txsubmission *)
+Theorem ts_msg_wellformed : forall m, ts_wf m = true -> exists i, ts_enc m = encode_item i /\ wf_item i = true.
+Proof. exact ts_wellformed. Qed.
+Theorem ts_msg_dec_enc : forall m r, ts_wf m = true -> ts_dec (ts_enc m ++ r) = DOk (m, r).
+Proof. exact ts_dec_enc. Qed.
+
+(* handshake node-to-node *)
+Theorem hsn_msg_wellformed : forall m, hsn_wf m = true -> exists i, hsn_enc m = encode_item i /\ wf_item i = true.
+Proof. exact hsn_wellformed. Qed.
+Theorem hsn_msg_dec_enc : forall m r, hsn_wf m = true -> hsn_dec (hsn_enc m ++ r) = DOk (m, r).
+Proof. exact hsn_dec_enc. Qed.
+
+(* handshake node-to-client *)
+Theorem hsc_msg_wellformed : forall m, hsc_wf m = true -> exists i, hsc_enc m = encode_item i /\ wf_item i = true.
+Proof. exact hsc_wellformed. Qed.
+Theorem hsc_msg_dec_enc : forall m r, hsc_wf m = true -> hsc_dec (hsc_enc m ++ r) = DOk (m, r).
+Proof. exact hsc_dec_enc. Qed.
+
+(* localstate (framing; query/result opaque items) *)
+Theorem ls_msg_wellformed : forall m, ls_wf m = true -> exists i, ls_enc m = encode_item i /\ wf_item i = true.
+Proof. exact ls_wellformed. Qed.
+Theorem ls_msg_dec_enc : forall m r, ls_wf m = true -> ls_dec (ls_enc m ++ r) = DOk (m, r).
+Proof. exact ls_dec_enc. Qed.
+
+(* localtxsubmission (framing; reject reason an opaque item) *)
+Theorem ltx_msg_wellformed : forall m, ltx_wf m = true -> exists i, ltx_enc m = encode_item i /\ wf_item i = true.
+Proof. exact ltx_wellformed. Qed.
+Theorem ltx_msg_dec_enc : forall m r, ltx_wf m = true -> ltx_dec (ltx_enc m ++ r) = DOk (m, r).
+Proof. exact ltx_dec_enc. Qed.
+
+(* txmonitor *)
+Theorem tm_msg_wellformed : forall m, tm_wf m = true -> exists i, tm_enc m = encode_item i /\ wf_item i = true.
+Proof. exact tm_wellformed. Qed.
+Theorem tm_msg_dec_enc : forall m r, tm_wf m = true -> tm_dec (tm_enc m ++ r) = DOk (m, r).
+Proof. exact tm_dec_enc. Qed.
+
+(* leiosnotify (network2) *)
+Theorem ln_msg_wellformed : forall m, ln_wf m = true -> exists i, ln_enc m = encode_item i /\ wf_item i = true.
+Proof. exact ln_wellformed. Qed.
+Theorem ln_msg_dec_enc : forall m r, ln_wf m = true -> ln_dec (ln_enc m ++ r) = DOk (m, r).
+Proof. exact ln_dec_enc. Qed.
+
+(* leiosfetch (network2) *)
+Theorem lf_msg_wellformed : forall m, lf_wf m = true -> exists i, lf_enc m = encode_item i /\ wf_item i = true.
+Proof. exact lf_wellformed. Qed.
+Theorem lf_msg_dec_enc : forall m r, lf_wf m = true -> lf_dec (lf_enc m ++ r) = DOk (m, r).
+Proof. exact lf_dec_enc. Qed.
+
+(* peersharing; pb = bound of the stack's Port type (2^32 pallas-network, 2^16 pallas-network2) *)
+Theorem ps_msg_wellformed : forall pb m, pb <= u64b -> ps_wf pb m = true -> exists i, ps_enc m = encode_item i /\ wf_item i = true.
+Proof. intros pb m. exact (ps6_wellformed pb m). Qed.
+Theorem ps_msg_dec_enc : forall pb m r, pb <= u64b -> ps_wf pb m = true -> ps_dec pb (ps_enc m ++ r) = DOk (m, r).
+Proof. intros pb m r. exact (ps6_dec_enc pb m r). Qed.
+
+(* the tree before the repair (both stacks): PeerAddress::V6 declared array(8) and wrote six items *)
+Theorem peeraddr_v6_malformed_refuted : exists m, ps_wf u16b m = true /\ ~ (exists i, ps_enc_pre m = encode_item i /\ wf_item i = true).
+Proof. exact ps_pre_refuted. Qed.
+
+(* inside the domain the HeaderContent encoder never refuses *)
+Theorem csh_msg_encodable : forall m, csh_wf m = true -> csh_enc_err m = false.
+Proof. exact csh_no_err. Qed.
+
+(* the four u32 words of an IPv6 address recombine to the address *)
+Theorem v6_words_roundtrip : forall bits, 0 <= bits < u128b -> v6_join (v6_word1 bits) (v6_word2 bits) (v6_word3 bits) (v6_word4 bits) = bits.
+Proof. exact v6_join_words. Qed.
+
+(* chainsync / handshake are generic in their content / version-data codec: both theorems hold
+   for ANY such codec that itself writes one well-formed item and round-trips *)
+Theorem cs_msg_generic : forall (C : Type) (encC : C -> list Z) (decC : list Z -> dres (C * list Z)) (wfC : C -> bool), (forall c, wfC c = true -> exists i, encC c = encode_item i /\ wf_item i = true) -> (forall c r, wfC c = true -> decC (encC c ++ r) = DOk (c, r)) -> forall m, cs_wf wfC m = true -> (exists i, cs_enc encC m = encode_item i /\ wf_item i = true) /\ (forall r, cs_dec decC (cs_enc encC m ++ r) = DOk (m, r)).
+Proof.
+  intros C encC decC wfC He Hr m Hm. split.
+  - exact (cs_wellformed encC decC wfC He Hr m Hm).
+  - intros r. exact (cs_dec_enc encC decC wfC He Hr m r Hm).
+Qed.
+Theorem hs_msg_generic : forall (D : Type) (encD : D -> list Z) (decD : list Z -> dres (D * list Z)) (wfD : D -> bool), (forall d, wfD d = true -> exists i, encD d = encode_item i /\ wf_item i = true) -> (forall d r, wfD d = true -> decD (encD d ++ r) = DOk (d, r)) -> forall m, hs_wf wfD m = true -> (exists i, hs_enc encD m = encode_item i /\ wf_item i = true) /\ (forall r, hs_dec decD (hs_enc encD m ++ r) = DOk (m, r)).
+Proof.
+  intros D encD decD wfD He Hr m Hm. split.
+  - exact (hs_wellformed encD decD wfD He Hr m Hm).
+  - intros r. exact (hs_dec_enc encD decD wfD He Hr m r Hm).
+Qed.
+
+(* non-vacuity: non-trivial messages inside the domains, with their encodings *)
+Example ps_example :
+  ps_wf u16b (PsSharePeers [PaV6 1 3001; PaV4 2130706433 80]) = true /\
+  ps_enc (PsSharePeers [PaV6 1 3001]) = [130; 1; 159; 134; 1; 0; 0; 0; 1; 25; 11; 185; 255].
+Proof. split; reflexivity. Qed.
+Example cs_example :
+  csh_wf (CsRollForward (Header 0 (Some (1, 7)) [1; 2]) (Tip (Specific 5 [9]) 6)) = true /\
+  csb_wf (CsFindIntersect [Origin; Specific 300 [1; 2; 3]]) = true.
+Proof. split; reflexivity. Qed.
+Example hs_example :
+  hsn_wf (HsPropose [(13, N2nData 764824073 true (Some 0) (Some false)); (14, N2nData 764824073 false None None)]) = true /\
+  hsc_wf (HsAccept 32784 (764824073, Some false)) = true /\
+  hsn_wf (HsRefuse (RRefused 14 [226; 130; 172])) = true.
+Proof. repeat split; reflexivity. Qed.
+Example misc_example :
+  ts_wf (TsReplyTxIds [((6, [1; 2]), 300)]) = true /\ tm_wf (TmResponseNextTx (Some (6, [130; 0; 1]))) = true /\
+  ls_wf (LsQuery [130; 0; 159; 1; 255]) = true /\ lf_wf (LfBlockTxs Origin [(0, 5); (3, 1)] [[1]; [129; 2]]) = true.
+Proof. repeat split; reflexivity. Qed.
